@@ -21,6 +21,11 @@ import (
 
 type customPanic struct{ n int }
 
+// sliceError is an error whose dynamic type is not comparable.
+type sliceError []string
+
+func (e sliceError) Error() string { return strings.Join(e, "; ") }
+
 // asCoded is an application error type that exposes a *connect.Error through an As method.
 type asCoded struct{ inner *connect.Error }
 
@@ -53,6 +58,14 @@ func panicValueFor(class, variant string) any {
 		return connect.NewError(connect.CodeNotFound, errors.New("coded panic value"))
 	case "int":
 		return 42
+	case "slice":
+		return []string{"not", "hashable"} // values that cannot be map keys or compared with ==
+	case "map":
+		return map[string]int{"a": 1}
+	case "func":
+		return func() {}
+	case "slice-error":
+		return sliceError{"e1", "e2"}
 	}
 	return "boom"
 }
@@ -258,6 +271,14 @@ func panicOp(c *Ctx, op string) {
 		}
 		return fmt.Sprintf("calls=[%s] outcome=%s", strings.Join(calls, " "), outcome)
 	})
+	// the recovered error travels like any handler error: a unary Connect failure is a JSON body
+	// under the code's HTTP status, labelled application/json (a peer that is not connect-go goes
+	// by that label)
+	if a["kind"] == "unary" && a["proto"] == "connect" && class != "none" && class != "abort" && !ic.panicked && ic.last != nil {
+		if ct := ic.last.Result().Header.Get("Content-Type"); ic.last.Code == 200 || ct != "application/json" {
+			c.Fail("recover-client-error", op, fmt.Sprintf("status=%d Content-Type=%q", ic.last.Code, ct), "a unary Connect error response is JSON under an error status, labelled application/json")
+		}
+	}
 	// oracle
 	switch class {
 	case "none":
@@ -321,7 +342,7 @@ func streamPanic(c *Ctx) {
 	points := []string{"before", "between", "after"}
 	vals := map[string][]string{
 		"none": {"-"}, "nil": {"-"}, "abort": {"-"}, "fail": {"-"},
-		"other": {"error", "string", "struct", "wrapped-abort", "coded", "int", "runtime"},
+		"other": {"error", "string", "struct", "wrapped-abort", "coded", "int", "runtime", "slice", "map", "func", "slice-error"},
 	}
 	for _, kind := range kinds {
 		api := "stream"
